@@ -108,3 +108,21 @@ func leakInfo(tag string, since time.Time) (int, []string) {
 	}
 	return total, where
 }
+
+// servingInfo: like leakInfo, but only goroutines that are inside api-fu (read loop, write loop, subscription
+// goroutines, a caller of Close()): usable while the conversation's HTTP server is still up.
+func servingInfo(tag string, since time.Time) (int, []string) {
+	snap := snapshotAfter(since)
+	total := 0
+	var where []string
+	for _, g := range snap.groups[tag] {
+		for _, fn := range g.funcs {
+			if strings.Contains(fn, "ccbrown/api-fu") {
+				total += g.count
+				where = append(where, fn[strings.LastIndex(fn, "/")+1:])
+				break
+			}
+		}
+	}
+	return total, where
+}
